@@ -85,6 +85,7 @@ Definition decl_wf (d : arrdecl) : Prop :=
   match d with (_, n, Some l) => n = List.length l /\ n <> 0 | (_, n, None) => n <> 0 end.
 Definition dwf (ds : list arrdecl) (n n' : nat) : Prop :=
   map (fun d : arrdecl => fst (fst d)) ds = seq n (List.length ds) /\ n' = n + List.length ds /\ Forall decl_wf ds.
+Definition dl (d : arrdecl) : nat * nat := (fst (fst d), snd (fst d)).
 Lemma dwf_nil : forall n, dwf [] n n.
 Proof. intro n. unfold dwf. cbn. repeat split; [lia|constructor]. Qed.
 Lemma dwf_app : forall a b n1 n2 n3, dwf a n1 n2 -> dwf b n2 n3 -> dwf (a ++ b) n1 n3.
@@ -97,30 +98,34 @@ Definition hf_stmt (s : stmt) : Prop :=
   wfs s = true -> forall st c st' ar,
   lower_stmt true s st = Ok (c, st') -> fresh_above (l_next st) ar ->
   exists ds, l_decl st' = l_decl st ++ ds /\ hoist_stmt s ar = declare_all ds ar /\
-             fresh_above (l_next st') (declare_all ds ar) /\ dwf ds (l_next st) (l_next st').
+             fresh_above (l_next st') (declare_all ds ar) /\ dwf ds (l_next st) (l_next st') /\
+             l_len st' = map dl (rev ds) ++ l_len st.
 Definition hf_block (b : block) : Prop :=
   bwfs b = true -> forall st c st' ar,
   lower_block true b st = Ok (c, st') -> fresh_above (l_next st) ar ->
   exists ds, l_decl st' = l_decl st ++ ds /\ hoist_block b ar = declare_all ds ar /\
-             fresh_above (l_next st') (declare_all ds ar) /\ dwf ds (l_next st) (l_next st').
+             fresh_above (l_next st') (declare_all ds ar) /\ dwf ds (l_next st) (l_next st') /\
+             l_len st' = map dl (rev ds) ++ l_len st.
 
 Lemma hf_nothing : forall s st st' ar,
-  l_decl st' = l_decl st -> l_next st' = l_next st -> hoist_stmt s ar = ar -> fresh_above (l_next st) ar ->
+  l_decl st' = l_decl st -> l_next st' = l_next st -> l_len st' = l_len st -> hoist_stmt s ar = ar -> fresh_above (l_next st) ar ->
   exists ds, l_decl st' = l_decl st ++ ds /\ hoist_stmt s ar = declare_all ds ar /\
-             fresh_above (l_next st') (declare_all ds ar) /\ dwf ds (l_next st) (l_next st').
+             fresh_above (l_next st') (declare_all ds ar) /\ dwf ds (l_next st) (l_next st') /\
+             l_len st' = map dl (rev ds) ++ l_len st.
 Proof.
-  intros s st st' ar E1 E2 E3 F. exists []. rewrite app_nil_r. cbn. rewrite E2.
-  split; [exact E1|]. split; [exact E3|]. split; [exact F|apply dwf_nil].
+  intros s st st' ar E1 E2 E4 E3 F. exists []. rewrite app_nil_r. cbn. rewrite E2.
+  split; [exact E1|]. split; [exact E3|]. split; [exact F|split; [apply dwf_nil|exact E4]].
 Qed.
 
 Lemma hf_declare : forall a n init st st1 ar,
   declare a n init st = Ok st1 -> fresh_above (l_next st) ar ->
   alookup a ar = None /\ l_decl st1 = l_decl st ++ [(a, n, init)] /\
   fresh_above (l_next st1) (aset a (decl_content (a, n, init)) ar) /\
-  (decl_wf (a, n, init) -> dwf [(a, n, init)] (l_next st) (l_next st1)).
+  (decl_wf (a, n, init) -> dwf [(a, n, init)] (l_next st) (l_next st1)) /\
+  l_len st1 = (a, n) :: l_len st.
 Proof.
-  intros a n init st st1 ar H F. destruct (declare_facts _ _ _ _ _ H) as (Ea & En & _ & Ed & _).
-  split; [apply F; lia|]. split; [exact Ed|]. split.
+  intros a n init st st1 ar H F. destruct (declare_facts _ _ _ _ _ H) as (Ea & En & El & Ed & _).
+  split; [apply F; lia|]. split; [exact Ed|]. split; [|split; [|exact El]].
   - intros a' Ha'. rewrite En in Ha'. rewrite alookup_aset_other by lia. apply F. lia.
   - intro W. unfold dwf. cbn. subst a. repeat split; [lia|constructor; [exact W|constructor]].
 Qed.
@@ -140,30 +145,30 @@ Proof.
   - intros q ip a ix _ st c st' ar H F. cbn [lower_stmt] in H.
     destruct (low_ix ix st); cbn [bind] in H; [|discriminate].
     destruct (low_meas q ip false st) as [[[m c0] s1]|] eqn:Em; cbn [bind] in H; [|discriminate]. inv_ok H.
-    destruct (low_meas_facts _ _ _ _ _ _ _ Em) as (id & _ & _ & _ & _ & N1 & _ & _ & _ & D1 & _).
+    destruct (low_meas_facts _ _ _ _ _ _ _ Em) as (id & _ & _ & _ & _ & N1 & _ & _ & Le1 & D1 & _).
     apply hf_nothing; auto.
   - (* SMeasNew *) intros q ip a _ st c st' ar H F. cbn [lower_stmt] in H.
     destruct (declare a 1 None st) as [s0|] eqn:Ed; cbn [bind] in H; [|discriminate].
     destruct (low_meas q ip false s0) as [[[m c0] s1]|] eqn:Em; cbn [bind] in H; [|discriminate]. inv_ok H.
-    destruct (low_meas_facts _ _ _ _ _ _ _ Em) as (id & _ & _ & _ & _ & N1 & _ & _ & _ & D1 & _).
-    destruct (hf_declare _ _ _ _ _ _ Ed F) as (Hn & Hd & Hf & Hw).
-    exists [(a, 1, None)]. rewrite D1, N1. split; [exact Hd|]. cbn [hoist_stmt declare_all fst decl_content].
-    rewrite Hn. split; [reflexivity|]. split; [exact Hf|]. apply Hw. cbn. discriminate.
+    destruct (low_meas_facts _ _ _ _ _ _ _ Em) as (id & _ & _ & _ & _ & N1 & _ & _ & Le1 & D1 & _).
+    destruct (hf_declare _ _ _ _ _ _ Ed F) as (Hn & Hd & Hf & Hw & Hl).
+    exists [(a, 1, None)]. rewrite D1, N1, Le1. split; [exact Hd|]. cbn [hoist_stmt declare_all fst decl_content].
+    rewrite Hn. split; [reflexivity|]. split; [exact Hf|]. split; [apply Hw; cbn; discriminate|exact Hl].
   - intros q ip r _ st c st' ar H F. cbn [lower_stmt] in H.
     destruct (alook r (l_rf st)); [discriminate|].
     destruct (low_meas q ip true st) as [[[m c0] s1]|] eqn:Em; cbn [bind] in H; [|discriminate]. inv_ok H.
-    destruct (low_meas_facts _ _ _ _ _ _ _ Em) as (id & _ & _ & _ & _ & N1 & _ & _ & _ & D1 & _).
+    destruct (low_meas_facts _ _ _ _ _ _ _ Em) as (id & _ & _ & _ & _ & N1 & _ & _ & Le1 & D1 & _).
     apply hf_nothing; auto.
   - intros q _ st c st' ar H F. cbn [lower_stmt] in H.
     destruct (qubit_id q st); cbn [bind] in H; [|discriminate]. inv_ok H. apply hf_nothing; auto.
   - (* SNewArray *) intros a len init _ st c st' ar H F. cbn [lower_stmt] in H.
     destruct (Nat.eqb (match init with Some l => List.length l | None => len end) 0) eqn:Ez; [discriminate|].
     destruct (declare a _ init st) as [s1|] eqn:Ed; cbn [bind] in H; [|discriminate]. inv_ok H.
-    destruct (hf_declare _ _ _ _ _ _ Ed F) as (Hn & Hd & Hf & Hw).
+    destruct (hf_declare _ _ _ _ _ _ Ed F) as (Hn & Hd & Hf & Hw & Hl).
     eexists. split; [exact Hd|]. cbn [hoist_stmt declare_all fst decl_content]. rewrite Hn.
     apply Nat.eqb_neq in Ez.
     destruct init as [l|]; (destruct (Nat.eqb _ 0) eqn:Ez'; [apply Nat.eqb_eq in Ez'; contradiction|]);
-      (split; [reflexivity|split; [exact Hf|apply Hw; cbn; auto]]).
+      (split; [reflexivity|split; [exact Hf|split; [apply Hw; cbn; auto|exact Hl]]]).
   - (* SFutAdd *) intros a ix o m _ st c st' ar H F. cbn [lower_stmt] in H.
     destruct (low_ix ix st); cbn [bind] in H; [|discriminate].
     destruct (take st) as [[t s1]|] eqn:Ht; cbn [bind] in H; [|discriminate].
@@ -173,24 +178,24 @@ Proof.
     { rewrite Es. eapply sba_trans; [eapply sba_take; eauto|].
       eapply sba_trans; [eapply low_src_sba; eauto|].
       eapply sba_trans; [apply sba_release|apply sba_release_all]. }
-    destruct S as (_ & _ & N & _ & _ & _ & _ & D). apply hf_nothing; auto.
+    destruct S as (_ & _ & N & _ & _ & _ & Le & D). apply hf_nothing; auto.
   - intros r o m _ st c st' ar H F. cbn [lower_stmt] in H.
     destruct (rf_lookup r st) as [[[] k]|]; try discriminate.
     destruct (low_src o st) as [[[[lo y] ts] s1]|] eqn:Hs; cbn [bind] in H; [|discriminate].
     match type of H with Ok (_, ?X) = _ => assert (Es : st' = X) by (inversion H; reflexivity) end.
     assert (S : sba st st').
     { rewrite Es. eapply sba_trans; [eapply low_src_sba; eauto|apply sba_release_all]. }
-    destruct S as (_ & _ & N & _ & _ & _ & _ & D). apply hf_nothing; auto.
+    destruct S as (_ & _ & N & _ & _ & _ & Le & D). apply hf_nothing; auto.
   - intros r init Hp. discriminate.
   - intros r o m Hp. discriminate.
   - (* SIf *) intros c cb x y body IH Hw st code st' ar H F. cbn [wfs] in Hw.
     apply andb_prop in Hw. destruct Hw as [_ Hwf]. cbn [lower_stmt] in H.
     destruct (lower_block true body st) as [[cbody s1]|] eqn:Hb; cbn [bind] in H; [|discriminate].
-    destruct (IH Hwf _ _ _ ar Hb F) as (ds & D1 & H1 & F1 & W1).
+    destruct (IH Hwf _ _ _ ar Hb F) as (ds & D1 & H1 & F1 & W1 & Ln1).
     assert (Fin : forall sF, sba s1 sF -> exists ds0, l_decl sF = l_decl st ++ ds0 /\
                hoist_stmt (SIf c cb x y body) ar = declare_all ds0 ar /\ fresh_above (l_next sF) (declare_all ds0 ar) /\
-               dwf ds0 (l_next st) (l_next sF)).
-    { intros sF (_ & _ & N & _ & _ & _ & _ & D). exists ds. rewrite D, N. auto. }
+               dwf ds0 (l_next st) (l_next sF) /\ l_len sF = map dl (rev ds0) ++ l_len st).
+    { intros sF (_ & _ & N & _ & _ & _ & Le & D). exists ds. rewrite D, N, Le. auto. }
     destruct (is_nil cbody); [inv_ok H; apply Fin, sba_refl|].
     destruct (low_cval x s1) as [[[[lx px] tx] s2]|] eqn:Hx; cbn [bind] in H; [|discriminate].
     assert (Sx := low_cval_sba _ _ _ _ _ _ Hx).
@@ -205,18 +210,18 @@ Proof.
     destruct (alook v (l_lv st)); [discriminate|].
     destruct (take st) as [[r s1]|] eqn:Ht; cbn [bind] in H; [|discriminate].
     destruct (lower_block true body (bind_lvr v r s1)) as [[cbody s2]|] eqn:Hb; cbn [bind] in H; [|discriminate].
-    destruct (sba_take _ _ _ Ht) as (_ & _ & N0 & _ & _ & _ & _ & D0).
-    destruct (IH Hwf _ _ _ ar Hb) as (ds & D1 & H1 & F1 & W1); [cbn; rewrite N0; exact F|].
-    cbn in D1, F1, W1. rewrite N0 in W1. exists ds. destruct (is_nil cbody); inv_ok H; cbn; rewrite D1, D0; auto.
+    destruct (sba_take _ _ _ Ht) as (_ & _ & N0 & _ & _ & _ & Le0 & D0).
+    destruct (IH Hwf _ _ _ ar Hb) as (ds & D1 & H1 & F1 & W1 & Ln1); [cbn; rewrite N0; exact F|].
+    cbn in D1, F1, W1, Ln1. rewrite N0 in W1. exists ds. destruct (is_nil cbody); inv_ok H; cbn; rewrite D1, D0, Ln1, Le0; auto.
   - (* SForeach *) intros enum v a body IH Hw st code st' ar H F.
     cbn [wfs] in Hw. apply andb_prop in Hw. destruct Hw as [_ Hwf]. cbn [lower_stmt] in H.
     destruct (alook a (l_len st)); [|discriminate].
     destruct (alook v (l_lv st)); [discriminate|].
     destruct (take st) as [[r s1]|] eqn:Ht; cbn [bind] in H; [|discriminate].
     destruct (lower_block true body (bind_lvr v r s1)) as [[cbody s2]|] eqn:Hb; cbn [bind] in H; [|discriminate].
-    destruct (sba_take _ _ _ Ht) as (_ & _ & N0 & _ & _ & _ & _ & D0).
-    destruct (IH Hwf _ _ _ ar Hb) as (ds & D1 & H1 & F1 & W1); [cbn; rewrite N0; exact F|].
-    cbn in D1, F1, W1. rewrite N0 in W1. exists ds. destruct (is_nil cbody); inv_ok H; cbn; rewrite D1, D0; auto.
+    destruct (sba_take _ _ _ Ht) as (_ & _ & N0 & _ & _ & _ & Le0 & D0).
+    destruct (IH Hwf _ _ _ ar Hb) as (ds & D1 & H1 & F1 & W1 & Ln1); [cbn; rewrite N0; exact F|].
+    cbn in D1, F1, W1, Ln1. rewrite N0 in W1. exists ds. destruct (is_nil cbody); inv_ok H; cbn; rewrite D1, D0, Ln1, Le0; auto.
   - (* SLoopUntil *) intros v maxit body IHb cx bound cleanup IHc Hw st code st' ar H F.
     cbn [wfs] in Hw.
     apply andb_prop in Hw. destruct Hw as [Hw Hem]. apply andb_prop in Hw. destruct Hw as [Hw _].
@@ -224,32 +229,34 @@ Proof.
     apply andb_prop in Hw. destruct Hw as [_ Hwf1]. cbn [lower_stmt] in H.
     destruct (alook v (l_lv st)); [discriminate|].
     destruct (take st) as [[r s1]|] eqn:Ht; cbn [bind] in H; [|discriminate].
-    destruct (sba_take _ _ _ Ht) as (_ & _ & N0 & _ & _ & _ & _ & D0).
+    destruct (sba_take _ _ _ Ht) as (_ & _ & N0 & _ & _ & _ & Le0 & D0).
     destruct (lower_block true body (bind_lvr v r s1)) as [[cbody s2]|] eqn:Hb; cbn [bind] in H; [|discriminate].
-    destruct (IHb Hwf1 _ _ _ ar Hb) as (ds1 & D1 & H1 & F1 & W1); [cbn; rewrite N0; exact F|]. cbn in D1, F1, W1.
+    destruct (IHb Hwf1 _ _ _ ar Hb) as (ds1 & D1 & H1 & F1 & W1 & Ln1); [cbn; rewrite N0; exact F|]. cbn in D1, F1, W1, Ln1.
     rewrite N0 in W1.
     assert (Hne := emits_nonnil _ _ _ _ Hem Hb).
     destruct cbody as [|c0 cr]; [contradiction|]. cbn [is_nil] in H.
     destruct (low_cval cx s2) as [[[[lx px] tx] s3]|] eqn:Hx; cbn [bind] in H; [|discriminate].
       assert (S3 : sba s2 (release_all tx s3)) by (eapply sba_trans; [eapply low_cval_sba; eauto|apply sba_release_all]).
-      destruct S3 as (_ & _ & N3 & _ & _ & _ & _ & D3).
+      destruct S3 as (_ & _ & N3 & _ & _ & _ & Le3 & D3).
       destruct (lower_block true cleanup (release_all tx s3)) as [[ccl s4]|] eqn:Hc; cbn [bind] in H; [|discriminate].
-      destruct (IHc Hwf2 _ _ _ (declare_all ds1 ar) Hc) as (ds2 & D2 & H2 & F2 & W2); [rewrite N3; exact F1|].
+      destruct (IHc Hwf2 _ _ _ (declare_all ds1 ar) Hc) as (ds2 & D2 & H2 & F2 & W2 & Ln2); [rewrite N3; exact F1|].
       rewrite N3 in W2.
       inv_ok H. exists (ds1 ++ ds2). cbn. rewrite D2, D3, D1, D0, app_assoc. cbn [hoist_stmt].
-      rewrite H1, H2, declare_all_app. split; [auto|split; [auto|split; [auto|eapply dwf_app; eauto]]].
+      rewrite H1, H2, declare_all_app. split; [auto|split; [auto|split; [auto|split; [eapply dwf_app; eauto|]]]].
+      rewrite Ln2, Le3, Ln1, Le0, rev_app_distr, map_app, app_assoc. reflexivity.
   - intros k body IH Hw. discriminate.
   - intros Hw. discriminate.
-  - intros _ st c st' ar H F. inv_ok H. exists []. rewrite app_nil_r. cbn. split; [auto|split; [auto|split; [auto|apply dwf_nil]]].
+  - intros _ st c st' ar H F. inv_ok H. exists []. rewrite app_nil_r. cbn. split; [auto|split; [auto|split; [auto|split; [apply dwf_nil|reflexivity]]]].
   - intros s IHs b IHb Hw st c st' ar H F. cbn [bwfs] in Hw.
     apply andb_prop in Hw. destruct Hw as [Hw1 Hw2].
     cbn [lower_block] in H.
     destruct (lower_stmt true s st) as [[c1 s1]|] eqn:H1; cbn [bind] in H; [|discriminate].
     destruct (lower_block true b s1) as [[c2 s2]|] eqn:H2; cbn [bind] in H; [|discriminate]. inv_ok H.
-    destruct (IHs Hw1 _ _ _ ar H1 F) as (d1 & D1 & E1 & F1 & W1).
-    destruct (IHb Hw2 _ _ _ _ H2 F1) as (d2 & D2 & E2 & F2 & W2).
+    destruct (IHs Hw1 _ _ _ ar H1 F) as (d1 & D1 & E1 & F1 & W1 & L1).
+    destruct (IHb Hw2 _ _ _ _ H2 F1) as (d2 & D2 & E2 & F2 & W2 & L2).
     exists (d1 ++ d2). rewrite D2, D1, app_assoc. cbn [hoist_block]. rewrite E1, E2, declare_all_app.
-    split; [auto|split; [auto|split; [auto|eapply dwf_app; eauto]]].
+    split; [auto|split; [auto|split; [auto|split; [eapply dwf_app; eauto|]]]].
+    rewrite L2, L1, rev_app_distr, map_app, app_assoc. reflexivity.
 Qed.
 
 (* ------------------------------------------------------------------ executing the array initialisation code *)
